@@ -720,3 +720,33 @@ Lemma static_zstd_witness :
   applied (gzip_serve skip_snapshot dexts_min false [bare] (bs "/f.txt") ae s) = [GZIP] /\
   r_ce (gzip_serve skip_snapshot dexts_min false [bare] (bs "/f.txt") ae s) = [GZIP].
 Proof. vm_compute. repeat split; reflexivity. Qed.
+
+(* Content-Length of static responses: FormatInt of the number of bytes sent, or dropped *)
+Lemma static_cl_plain prio ae data sibs :
+  r_cl (run_plain (static_script prio false ae data sibs)) =
+  [decimal (N.of_nat (length (snd (static_hdrs prio ae data sibs))))].
+Proof.
+  rewrite (plain_of_shape _ _ _ _ (static_shape prio false ae data sibs)).
+  unfold r_cl. rewrite hdr_plain. unfold static_hdrs.
+  destruct (select_sibling prio ae _) as [[name ext]|]; unfold apply_hdrs; cbn [fst snd fold_left hdr_fun].
+  - rewrite hvals_hset_other by exact etag_ne_cl. apply hvals_hset_same.
+  - apply hvals_hset_same.
+Qed.
+
+Lemma static_wire_plain gz prio ae data sibs :
+  wire gz false (run_plain (static_script prio false ae data sibs)) = snd (static_hdrs prio ae data sibs).
+Proof.
+  rewrite (plain_of_shape _ _ _ _ (static_shape prio false ae data sibs)).
+  rewrite wire_plain. simpl. apply app_nil_r.
+Qed.
+
+Lemma static_content_length sl dexts prio gz cs cfgs path ae data sibs :
+  let out := gzip_serve sl dexts cs cfgs path ae (static_script prio false ae data sibs) in
+  r_cl out = [] \/ r_cl out = [decimal (N.of_nat (length (wire gz false out)))].
+Proof.
+  intros out. unfold out.
+  destruct (serve_cases sl dexts cs cfgs path ae _ (static_wb prio false ae data sibs))
+    as [-> | (c & H & code & wr & _ & _ & Hok & Hp & ->)].
+  - right. rewrite static_cl_plain, static_wire_plain. reflexivity.
+  - left. unfold r_cl. rewrite hdr_gz. apply gz_hdr_cl.
+Qed.
